@@ -7,7 +7,7 @@ use std::process::{Command, Stdio};
 use std::sync::{Arc, Barrier};
 use std::time::{Duration, Instant};
 
-pub const OPS: &[&str] = &["format", "format_flat", "tree_format", "diagnostic_annotated", "hex", "register_tags", "kv_name", "fn_name", "param_name", "kv_store", "fn_store", "param_store", "format_own"];
+pub const OPS: &[&str] = &["format", "format_flat", "tree_format", "diagnostic_annotated", "hex", "register_tags", "kv_name", "fn_name", "param_name", "kv_store", "fn_store", "param_store", "format_own", "format_local", "request_summary"];
 
 fn sample_envelopes() -> Vec<Envelope> {
     // built WITHOUT touching any registry (no formatting, no name lookups)
@@ -52,6 +52,16 @@ pub fn run_op(op: &str, e: &Envelope) -> String {
         // formatting with a context of the caller's own (a copy of the global one, taken under its lock; the formatting itself
         // then runs without any lock, side by side with everything else)
         "format_own" => { let own = bc_envelope::with_format_context!(|ctx: &bc_envelope::FormatContext| ctx.clone()); format!("{}|{}", e.format_opt(Some(&own)), e.tree_format_opt(false, Some(&own))) }
+        // formatting with a context that names the same raw known values differently (a localised application): its names show in
+        // its text and nowhere else; no lock of the crate is taken
+        "format_local" => {
+            use bc_envelope::extension::known_values::KnownValuesStore;
+            let store = KnownValuesStore::new([KnownValue::new_with_name(1u64, "istEin".to_string()), KnownValue::new_with_name(4u64, "notiz".to_string()), KnownValue::new_with_name(16u64, "datum".to_string()), KnownValue::new_with_name(4711u64, "lokal".to_string())]);
+            let ctx = bc_envelope::FormatContext::new(false, None, Some(&store), None, None);
+            format!("{}|{}", e.format_opt(Some(&ctx)), e.tree_format_opt(false, Some(&ctx)))
+        }
+        // the one-line summary of a request (what a logging statement prints)
+        "request_summary" => { let r = bc_envelope::Request::new_with_body(Expression::new(bc_envelope::functions::ADD).with_parameter(bc_envelope::parameters::LHS, 2), bc_components::ARID::from_data_ref([5u8; 32]).unwrap()); use bc_envelope::RequestBehavior; let _ = r.id(); r.summary() }
         // every lookup door of a registry store, under one guard (registered and unregistered values, both directions)
         "kv_store" => {
             use bc_envelope::extension::known_values::KnownValuesStore;
@@ -225,7 +235,7 @@ fn sample_envelopes_sendable() -> Vec<Vec<u8>> { sample_envelopes().iter().map(|
 fn run_op_bytes(op: &str, b: &[u8]) -> String {
     // the registry lookups do not look at the envelope: no decoding in front of them, so that threads released together really
     // arrive at the lazy together
-    if matches!(op, "kv_name" | "fn_name" | "param_name" | "register_tags" | "kv_store" | "fn_store" | "param_store") { return run_op(op, &Envelope::new(0)); }
+    if matches!(op, "kv_name" | "fn_name" | "param_name" | "register_tags" | "kv_store" | "fn_store" | "param_store" | "request_summary") { return run_op(op, &Envelope::new(0)); }
     // NOTE: decoding takes dcbor's GLOBAL_TAGS lock briefly (Envelope::cbor_tags) - part of the mix
     let e = Envelope::from_tagged_cbor_data(b).unwrap();
     run_op(op, &e)
